@@ -47,6 +47,8 @@ pub struct DebugSession {
     events: Vec<InternalEvent>,
     next_progress_id: u64,
     terminated: bool,
+    /// `seq` of the last request that has got its response.
+    answered_request: Option<i64>,
     exit_code: Option<i32>,
     exception_filters: Vec<String>,
     last_stop: Option<control::LastStop>,
@@ -116,6 +118,7 @@ impl DebugSession {
             events: Vec::new(),
             next_progress_id: 1,
             terminated: false,
+            answered_request: None,
             exit_code: None,
             exception_filters: vec![
                 EXCEPTION_FILTER_SIGNAL.to_string(),
@@ -466,6 +469,7 @@ impl DebugSession {
         };
         let value = serde_json::to_value(rsp)?;
 
+        self.answered_request = Some(req.seq);
         lock.write_message(&value)
     }
 
@@ -672,7 +676,16 @@ impl DebugSession {
             let cont = match self.dispatch(&req, &oracles) {
                 Ok(cont) => cont,
                 Err(e) => {
-                    let _ = self.send_err(&req, format!("{e:#}"));
+                    if self.answered_request == Some(req.seq) {
+                        // the handler failed after it had answered: a request gets exactly one
+                        // response, the failure is reported as console output
+                        self.enqueue_event(InternalEvent::Output {
+                            category: "console",
+                            output: format!("{}: {e:#}\n", req.command),
+                        });
+                    } else {
+                        let _ = self.send_err(&req, format!("{e:#}"));
+                    }
                     true
                 }
             };
